@@ -395,6 +395,17 @@ class LessParser(object):
             # drop the definition, and an unclosed block after it, silently
             self.handle_error(e, p.lineno(2))
         self.scope.current = p[1]
+        # the parameters shadow outer variables of the same name inside the
+        # definition (see p_media_query_value)
+        names = [
+            ''.join(utility.flatten([t.tokens[0]])).strip()
+            if isinstance(t, Variable) else t
+            for t in utility.flatten([p[3]])
+        ]
+        self.scope[-1]['__params__'] = [
+            t for t in names
+            if isinstance(t, string_types) and utility.is_variable(t)
+        ]
         p[0] = [p[1], p[3]]
         if len(p) > 6:
             p[0].append(p[5])
@@ -733,7 +744,11 @@ class LessParser(object):
                                         | color
                                         | expression
         """
-        if utility.is_variable(p[1]):
+        if utility.is_variable(p[1]) and not any(
+                ''.join(p[1]).strip() in frame.get('__params__', ())
+                for frame in self.scope):
+            # (a parameter of an enclosing mixin definition is only known
+            # at the call, whatever outer variable has the same name)
             var = self.scope.variables(''.join(p[1]))
             if var:
                 value = var.value[0]
